@@ -264,6 +264,81 @@ func TestC04(t *testing.T) {
 	})
 	r.Set("reconnect_cases", reconnects)
 
+	// Part A3: the transport breaks under one side's write of one act. A
+	// party whose handshake failed holds nothing of it: no traffic keys, no
+	// stored peer key (it would otherwise move to the key-derived rendezvous
+	// and the KK pattern on the strength of a handshake it never
+	// completed, while the peer does not), no auth payload, no callbacks.
+	type tfjob struct {
+		c     hsCase
+		side  string
+		write int
+	}
+	var tfjobs []tfjob
+	for _, c := range []hsCase{
+		{cMin: 0, cMax: 0, sMin: 0, sMax: 0, payload: 7}, {cMin: 1, cMax: 1, sMin: 1, sMax: 1, payload: 7},
+		{cMin: 2, cMax: 2, sMin: 2, sMax: 2, payload: 7}, {cMin: 0, cMax: 2, sMin: 0, sMax: 2, payload: 600},
+		{kk: true, cMin: 2, cMax: 2, sMin: 2, sMax: 2, payload: 7},
+	} {
+		for _, side := range []string{"initiator", "responder"} {
+			for w := 1; w <= 4; w++ {
+				tfjobs = append(tfjobs, tfjob{c, side, w})
+			}
+		}
+	}
+	var brokenWrites int64
+	parallel(len(tfjobs), func(i int) {
+		j := tfjobs[i]
+		atomic.AddInt64(&evals, 1)
+		o := hsOpts{}
+		if j.side == "initiator" {
+			o.failWriteI = j.write
+		} else {
+			o.failWriteR = j.write
+		}
+		ini, rsp := j.c.parties()
+		ri, rr, _, err := runHandshake(ini, rsp, o)
+		label := fmt.Sprintf("%v, write #%d of the %s fails (transport broke)", j.c, j.write, j.side)
+		ctx := map[string]any{"case": j.c.String(), "failing_side": j.side, "failing_write": j.write}
+		if err != nil {
+			r.Violation("hs/hang", label+": "+err.Error(), ctx)
+			return
+		}
+		for name, p := range map[string]*partyResult{"initiator": ri, "responder": rr} {
+			if p.completed || p.machine == nil {
+				continue
+			}
+			atomic.AddInt64(&brokenWrites, 1)
+			var kept []string
+			if p.machine.VerifSend().Ready || p.machine.VerifRecv().Ready {
+				kept = append(kept, "traffic keys")
+			}
+			if !j.c.kk && p.connData.RemoteKey() != nil {
+				kept = append(kept, "the peer's static key (stored)")
+			}
+			if len(p.onRemote) != 0 {
+				kept = append(kept, "onRemoteStatic was called")
+			}
+			if name == "initiator" && (p.connData.AuthData() != nil || len(p.onAuth) != 0) {
+				kept = append(kept, "the auth payload")
+			}
+			if len(kept) > 0 {
+				r.Violation("views-differ/failed-party-keeps-state/"+name,
+					fmt.Sprintf("%s: the %s's handshake failed (%v) but it keeps: %v", label, name, p.err, kept), ctx)
+				return
+			}
+		}
+		if ri.completed && rr.completed {
+			if diff := compareViews(j.c, ri, rr); len(diff) > 0 {
+				r.Violation("views-differ/transport-failure", fmt.Sprintf("%s: both completed with different views %v", label, diff), ctx)
+				return
+			}
+		}
+		note("transport-failure/ok")
+	})
+	r.Set("transport_failure_cases", len(tfjobs))
+	r.Set("failed_parties_checked", brokenWrites)
+
 	// Part B1: every combination of version-byte substitutions (0..3 per
 	// act) on every configuration.
 	type vjob struct {
